@@ -229,9 +229,13 @@ def jacobian_cases(draw, tier):
     spec = draw(c14.symbolic_circuits(tier, allow_mixed=False, exprs=EXPRS,
                                       max_boxes=3, gates=["rot", "rot",
                                                           "named"]))
+    mixed = draw(st.booleans())
+    # three variables for pure jacobians only (the index wire is then a
+    # Digit(3) next to qubits; mixed ones are too slow symbolically)
     return {"d": spec, "vars": draw(st.lists(st.sampled_from(["u", "v", "x"]),
-                                             unique=True, max_size=2)),
-            "mixed": draw(st.booleans()),
+                                             unique=True,
+                                             max_size=2 if mixed else 3)),
+            "mixed": mixed,
             "env": {s: draw(st.sampled_from(POINTS))
                     for s in ["u", "v", "x", "y", "z"]}}
 
@@ -270,6 +274,20 @@ def check_jacobian(case):
             t = np.asarray(pure_term_eval(term).array, dtype=object)
             total = t if total is None else total + t
         arr = c14.to_complex(total, env)
+        if len(variables) != 2:
+            # the library's own evaluation of the formal sum: amplitudes (two
+            # variables make the index wire a bit, which the library reads
+            # as a classical-quantum circuit: not compared)
+            from discopy.tensor import Tensor
+            from discopy.quantum.cqmap import CQMap
+            whole = jac.eval()
+            require(isinstance(whole, Tensor)
+                    and not isinstance(whole, CQMap),
+                    "C15:pure-jacobian-not-amplitudes", lambda: "{} wrt {}: "
+                    "{!r}".format(common.show(d), variables, whole)[:600])
+            same(c14.to_complex(np.asarray(whole.array, dtype=object), env),
+                 arr, "circuit-jacobian-eval", "{} wrt {}".format(
+                     common.show(d), variables))
     rows = [symbolic_derivative(value.array, v, env) for v in variables]
     same(arr, np.stack(rows).reshape(-1) if len(variables) > 1 else rows[0],
          "circuit-jacobian", "{} wrt {} (mixed={})".format(
@@ -309,8 +327,9 @@ core.register("C15", [
           shards_quick=4, rule="tensor diagrams with symbolic boxes, "
           "optionally inside a polynomial bubble; gradient and jacobian vs "
           "symbolic differentiation of the evaluation"),
-    Facet("jacobians", jacobian_cases, check_jacobian, n_quick=80,
-          shards_quick=4, rule="circuit jacobians over 0-2 variables out of three, one of which never occurs"),
+    Facet("jacobians", jacobian_cases, check_jacobian, n_quick=120,
+          shards_quick=4, rule="circuit jacobians over 0-3 variables out of three (three for pure "
+          "jacobians only), one of which never occurs"),
 ], rule=RULE, assumptions=[
     "symbols are real; the derivative of the library's own symbolic "
     "evaluation (sympy, exact) is the primary reference (tolerance 1e-7), a "
